@@ -93,6 +93,32 @@ def r1_tables(run, F):
                 ranges = [r for r in ranges if all(isinstance(x, (int, str)) and x is not None for x in r)]
                 return sorted(set(ranges), key=str) or None
         return "no \\u arm"
+    def unicode_digit_interval(T, quote):
+        """(lo, hi) inclusive of the digit counts admitted by a literal range test in the \\u arm; None = no such test."""
+        arm = T.quote_arms.get(quote)
+        ms = [m for m in hirq.matches(arm["body"]) if lexq.is_next(m["scrut"])] if arm else []
+        out = []
+        for a in (ms[0]["arms"] if len(ms) == 1 else []):
+            if lexq.char_lits(a["pat"]) != [117]:
+                continue
+            for n in walk(a["body"]):
+                if n.get("k") == "Call" and str(hirq.callee(n) or "").endswith("RangeInclusive::new"):
+                    lo, hi = [hirq.unwrap_trivial(x).get("v") for x in n["a"][:2]]
+                    out.append((lo, hi))
+                elif n.get("k") == "Struct" and str(n.get("path", "")).endswith("ops::RangeInclusive"):
+                    lo, hi = [hirq.unwrap_trivial(f["e"]).get("v") for f in n["fields"]][:2]
+                    out.append((lo, hi))
+                elif n.get("k") == "Struct" and str(n.get("path", "")).endswith("ops::Range"):
+                    lo, hi = [hirq.unwrap_trivial(f["e"]).get("v") for f in n["fields"]][:2]
+                    out.append((lo, hi - 1 if isinstance(hi, int) else hi))
+        return [(lo, hi) for lo, hi in out if isinstance(lo, int) and isinstance(hi, int)]   # location ranges have no literal bounds
+    for q in (34, 39):
+        for T, gen in ((A, "first"), (D, "second")):
+            for lo, hi in unicode_digit_interval(T, q):
+                run.ob("R1-ESCAPES", "%s-literal \\u{10FFFF} %s generation" % ("string" if q == 34 else "char", gen),
+                       isinstance(lo, int) and isinstance(hi, int) and lo <= 1 and hi >= 6, F.where(T.body),
+                       "the digit-count test of the \\u{..} escape admits %s..=%s digits; every Unicode scalar value up to U+10FFFF (six digits) and "
+                       "`\\u{A}` (one digit) must be expressible, as they are for the other lexer" % (lo, hi))
     for q in (34, 39):
         ba, bd = unicode_digit_bounds(A, q), unicode_digit_bounds(D, q)
         if "no \\u arm" in (ba, bd):
@@ -344,10 +370,48 @@ def check(run):
     r4b_payload_table(run, F)
     r5_accumulate(run, F, D)
     r6_digit_evidence(run, F, D)
+    r7_digit_tables(run, F)
     # exact spans of the first generation: the per-line offset bookkeeping in lex() (shared with C13.R4 / R5)
     from props import c13
     c13.r4_lines(run, F)
     run.assume("alpha never sees '\\n' or a '\\r' directly before it: str::lines() strips them (C13.R4 checks the offset bookkeeping)")
+
+
+DIGIT_FNS = {
+    # classifier                                   radix  call sites in the scanner, counted by hand
+    "delta::lexer::digits::parse_hex_digit":      (16, 4),   # 0x literal, \\x in char, \\x in string, \\u{..}
+    "delta::lexer::digits::parse_decimal_digit":  (10, 2),   # first digit, following digits
+}
+
+
+def r7_digit_tables(run, F):
+    """The byte classifiers shared by every digit consumer of the second-generation scanner, as tables over all 256
+    bytes (rules/bytefn.py folds their definition; nothing runs): exactly the digits of the radix, each with its value.
+    A byte wrongly classified as a digit is swallowed by the literal or escape and is never reported (E110/E141/E162);
+    a wrong value is a wrong payload."""
+    from rules import bytefn
+    scanner = F.body("delta::lexer::lex_source_into_buffer")
+    for path, (radix, sites) in sorted(DIGIT_FNS.items()):
+        run.require(F.has_body(path), "%s not found" % path)
+        b = F.body(path)
+        t = bytefn.table(b)
+        bad = []
+        for x in range(256):
+            c = chr(x)
+            try:
+                want = ("Some", int(c, radix)) if c.isascii() and c.isalnum() else "None"
+            except ValueError:
+                want = "None"
+            if t[x] != want:
+                bad.append((x, t[x], want))
+        run.ob("R7-DIGIT-TABLES", path.split("::")[-1], not bad, F.where(b),
+               "%s must map exactly the radix-%d digits to their values and every other byte to None; differs for %s" % (
+                   path.split("::")[-1], radix, ", ".join("byte 0x%02X -> %s (expected %s)" % z for z in bad[:6]) or "nothing"),
+               sample={"function": path, "differences": [list(map(str, z)) for z in bad[:20]]})
+        n = sum(1 for x in walk(scanner["hir"]) if x.get("k") == "Call" and hirq.callee(x) == path)
+        run.ob("R7-DIGIT-TABLES", "%s call sites" % path.split("::")[-1], n >= sites, F.where(scanner),
+               "the scanner classifies digits through %s at %d sites (%d counted when the rule was written); a site that classifies bytes "
+               "by its own test is outside the table" % (path.split("::")[-1], n, sites))
 
 
 # ---------------------------------------------------------------------------
